@@ -91,6 +91,11 @@ def generate(seed, tier):
             "patience": r.randint(1, 5),
             "tolerance": tol,
             "criterion": crit,
+            # the constructor accepts the name case- and whitespace-insensitively
+            "criterion_spelling": r.choice(["plain", "plain", "plain", "Title", "UPPER", " padded "]),
+            # the deprecated class takes a variance_name that is documented as ignored
+            "variance_name": r.choice([None, "variance", "std_error", "num_samples", "mean", "whatever"]),
+            "vb_positional": r.random() < 0.5,
             "klass": klass,
             "order": r.choice(["eval_first", "eval_first", "stop_first"]),
             "script_kind": kind,
@@ -171,9 +176,15 @@ def execute(plan):
                     ev.system.statistics = stats
                 try:
                     if c["klass"] == "VarianceBased":
-                        es = VarianceBasedEarlyStopping(c["es_period"], c["tolerance"], c["patience"], ev, qname, "ignored")
+                        vn = c.get("variance_name", "ignored")
+                        if c.get("vb_positional", True):
+                            es = VarianceBasedEarlyStopping(c["es_period"], c["tolerance"], c["patience"], ev, qname, vn)
+                        else:
+                            es = VarianceBasedEarlyStopping(period=c["es_period"], tolerance=c["tolerance"], patience=c["patience"], evaluator_callback=ev, quantity_name=qname, variance_name=vn)
                     else:
-                        es = EarlyStopping(c["es_period"], c["tolerance"], c["patience"], ev, qname, criterion=c["criterion"])
+                        sp = c.get("criterion_spelling", "plain")
+                        cname = {"plain": c["criterion"], "Title": c["criterion"].title(), "UPPER": c["criterion"].upper(), " padded ": "  " + c["criterion"] + " "}[sp]
+                        es = EarlyStopping(c["es_period"], c["tolerance"], c["patience"], ev, qname, criterion=cname)
                 except TypeError as exc:
                     construct_error = exc
                     es = None
@@ -360,6 +371,10 @@ def shrink(plan):
         out.append(q)
     if c.get("extra_metric"):
         out.append(v(extra_metric=False))
+    if c.get("criterion_spelling", "plain") != "plain":
+        out.append(v(criterion_spelling="plain"))
+    if c.get("variance_name") not in (None,):
+        out.append(v(variance_name=None))
     simple = [float(i % 3) for i in range(len(c["values"]))]
     if c["values"] != simple:
         out.append(v(values=simple, spreads=[1.0] * len(simple)))
